@@ -71,6 +71,8 @@ where
     let mut log: Vec<(u32, u128, u128)> = Vec::new();
     let mut flushes = 0u64;
     let mut edge_hits = 0u64;
+    let peek_16: u64 = *rng.pick(&[0u64, 0, 0, 6]);
+    let mut peeks = 0u64;
     for i in 0..n {
         let mut mi = rng.below(zoo.len() as u64) as usize;
         let mut sym = pick_symbol(rng, zoo[mi].cdf());
@@ -89,6 +91,16 @@ where
                     edge_hits += 1;
                 }
             }
+        }
+        if peek_16 > 0 && rng.below(16) < peek_16 {
+            // somebody looks at the data while it is produced (plain and raw-binary views append
+            // the state's words temporarily and must take exactly those away again)
+            if rng.bool() {
+                let _ = coder.get_compressed().map(|g| g.len());
+            } else {
+                let _ = coder.get_binary().map(|g| g.len());
+            }
+            peeks += 1;
         }
         let (cum, p) = zoo[mi].cp(sym);
         let prec = zoo[mi].prec();
@@ -113,6 +125,7 @@ where
             return;
         }
     }
+    run.count("ans_peeks_while_encoding", peeks);
     let words = words_u128(&coder.into_compressed().unwrap_infallible());
     let exp = reference.compressed();
     if words != exp {
